@@ -123,6 +123,11 @@ func (c *MiscreantCipher) Unmarshal(value string, s interface{}) error {
 	if err != nil {
 		return err
 	}
+	// only accept the canonical encoding of the ciphertext: the decoder skips CR/LF and
+	// ignores the unused trailing bits, so other strings would decode to the same bytes
+	if base64.RawURLEncoding.EncodeToString(ciphertext) != value {
+		return fmt.Errorf("invalid encoding of sealed value")
+	}
 
 	// decrypt the bytes
 	plaintext, err := c.Decrypt(ciphertext)
